@@ -12,7 +12,7 @@ import (
 func init() { register("C02", propC02) }
 
 func propC02(c *Ctx) {
-	c.Explanation = "Liveness under loss is a property of timed executions and is not decided. Decided (path shapes, for all inputs and schedules): (W1) produce => notify: a segment enqueued by HandlePacket asserts newSegmentWaker; data queued by Write is processed under TryLock or asserts sndWaker; the FIN queued by Shutdown asserts sndCloseWaker; a zero->non-zero receive-window transition in readLocked/SetSockOpt notifies the protocol goroutine, whose handler sends the window-reopening ACK exactly when the window last announced (after scaling) was zero; (W2) every waker field of endpoint/sender/keepalive is registered with a handler in protocolMainLoop and every notify flag is tested in the notification handler or the listen loop; the handshake registers resend, notification and new-segment wakers; (W3) the retransmission timer is (re)armed with the current RTO whenever sndUna != sndNxt (data or FIN outstanding), the SYN resend timer exists before the first SYN and is reset on each resend; (W4) FIN last, nothing after it: Write queues data only while sndClosed is false, in the sndBufMu critical section; Shutdown sets sndClosed in the critical section that pushes the zero-length segment at the BACK of the send queue; sendData turns only the last, zero-length segment into FIN|ACK; the receive side closes only on a consumed in-order FIN (one sequence number, ACKed at once, readers told) and ignores everything afterwards; (W5) the main loop runs until rcv.closed && snd.closed && sndUna == sndNxtList. (W7) logicalLen = payload + SYN + FIN (shared); a zero-length segment is consumed only exactly at rcvNxt (W4). (W8) the lazy retransmission timer's typestate (shared with C05/L6): an expiry ends disabled, so the next enable re-arms. (W9) teardown happens exactly once: the worker if one runs (Close sets workerCleanup and wakes it; completeWorkerLocked cleans up when asked), else Close; workerRunning is set before the goroutine starts; protocol goroutines are started only by connect, Listen and startAcceptedLoop. W4 also holds the drain-loop rows: parked segments are offered with their payload length. Write advances both byte counters (sndBufUsed, sndBufInQueue) by exactly the accepted view's length (rows of W1). (W10) an acceptable ACK frees exactly the acknowledged amount of send buffer and releases exactly the acknowledged segments, and every received segment ends with an attempt to send; (W11) every hand-off to the receive list wakes readers; (W12) received data is acknowledged at the end of every batch and leftover segments re-arm the worker; (W13) Shutdown accounts for the FIN in the send queue and notifies the worker; (W14) the TCP emitters return the result of the one packet write they perform. (W15) the inbound segment queue: charged on enqueue, credited by the same amount on dequeue, empty exactly when nothing is charged. NOT decided: that retransmission eventually succeeds, timing, window probing by the peer."
+	c.Explanation = "Liveness under loss is a property of timed executions and is not decided. Decided (path shapes, for all inputs and schedules): (W1) produce => notify: a segment enqueued by HandlePacket asserts newSegmentWaker; data queued by Write is processed under TryLock or asserts sndWaker; the FIN queued by Shutdown asserts sndCloseWaker; a zero->non-zero receive-window transition in readLocked/SetSockOpt notifies the protocol goroutine, whose handler sends the window-reopening ACK exactly when the window last announced (after scaling) was zero; (W2) every waker field of endpoint/sender/keepalive is registered with a handler in protocolMainLoop and every notify flag is tested in the notification handler or the listen loop; the handshake registers resend, notification and new-segment wakers; (W3) the retransmission timer is (re)armed with the current RTO whenever sndUna != sndNxt (data or FIN outstanding), the SYN resend timer exists before the first SYN and is reset on each resend; (W4) FIN last, nothing after it: Write queues data only while sndClosed is false, in the sndBufMu critical section; Shutdown sets sndClosed in the critical section that pushes the zero-length segment at the BACK of the send queue; sendData turns only the last, zero-length segment into FIN|ACK; the receive side closes only on a consumed in-order FIN (one sequence number, ACKed at once, readers told) and ignores everything afterwards; (W5) the main loop runs until rcv.closed && snd.closed && sndUna == sndNxtList. (W7) logicalLen = payload + SYN + FIN (shared); a zero-length segment is consumed only exactly at rcvNxt (W4). (W8) the lazy retransmission timer's typestate (shared with C05/L6): an expiry ends disabled, so the next enable re-arms. (W9) teardown happens exactly once: the worker if one runs (Close sets workerCleanup and wakes it; completeWorkerLocked cleans up when asked), else Close; workerRunning is set before the goroutine starts; protocol goroutines are started only by connect, Listen and startAcceptedLoop. W4 also holds the drain-loop rows: parked segments are offered with their payload length. Write advances both byte counters (sndBufUsed, sndBufInQueue) by exactly the accepted view's length (rows of W1). (W10) an acceptable ACK frees exactly the acknowledged amount of send buffer and releases exactly the acknowledged segments, and every received segment ends with an attempt to send; (W11) every hand-off to the receive list wakes readers; (W12) received data is acknowledged at the end of every batch and leftover segments re-arm the worker; (W13) Shutdown accounts for the FIN in the send queue and notifies the worker; (W14) the TCP emitters return the result of the one packet write they perform. (W15) the inbound segment queue: charged on enqueue, credited by the same amount on dequeue, empty exactly when nothing is charged. (W16) a genuine expiry of the retransmission timer always doubles the RTO and restarts transmission from the head of the write list - nothing but the expiry itself and the 60 s give-up bound decides it, in particular not the in-flight packet count, so a lone FIN is retransmitted (shared with C05/L2,L4). (W17) the complete path table of receiver.acceptable (shared with C04/N6): first byte in the window OR overlap with the window, so a coalesced retransmission that starts below rcvNxt but carries new bytes is consumed. NOT decided: that retransmission eventually succeeds, timing, window probing by the peer."
 	ep := "(*tcp.endpoint)."
 	w1 := c.Rule("W1", "K1/K2/K5 site tables", "produce => notify", 12)
 	if fn := c.Fn(w1, ep+"HandlePacket"); fn != nil {
@@ -258,6 +258,9 @@ func propC02(c *Ctx) {
 
 	sendResultRule(c, c.Rule("W14", "K7 closed return tables (shared with C06/E10)", "the TCP emitters return the result of the one packet write they perform", 2), "tcp.sendTCP", "tcp.sendSynTCP")
 	segmentQueueRule(c, c.Rule("W15", "K7 closed site tables (shared with C05/L10, C01/R14)", "the inbound segment queue: charged on enqueue, credited by the same amount on dequeue, empty exactly when nothing is charged", 7))
+	w16 := c.Rule("W16", "K7 exact-guard site table + K2 order (shared with C05/L2,L4)", "a genuine expiry of the retransmission timer always restarts transmission from the head of the write list: nothing but the expiry itself and the give-up bound decides it (a lone FIN is retransmitted: the in-flight packet count is not consulted)", 6)
+	rtoExpiryRule(c, w16, w16)
+	acceptableRule(c, c.Rule("W17", "K9 path table (shared with C04/N6)", "a segment that starts below rcvNxt but reaches into the window is acceptable (first byte in the window OR overlap): a coalesced retransmission is consumed instead of being answered with duplicate ACKs for ever", 3))
 	// ---- W5
 	mainLoopExitRule(c, c.Rule("W5", "K5", "main loop exit condition", 3))
 	// W9: who cleans up. Close hands the cleanup to the worker exactly when one
